@@ -33,6 +33,24 @@ CHECKS = {
          "later validations are then as in a fresh process. decide-witness of the double redeem under the old order. Tie: histories with a "
          "format checker panicking at its k-th invocation, recovery, and comparison of every later call with a fresh run, plus trace replay.",
          "Lean 4 proof (redeem protocol with panic point) + panic-injection history correspondence", "DESIGN.md §6 C11"),
+ "C13": ("Kernel-checked theorems about the kind-dispatched numeric helpers, stated over Lean renderings of MaximumInt/MinimumUint/"
+         "MultipleOfInt/... regenerated from values.go on every run (bridge lemmas to the expected forms): exact agreement with rational "
+         "arithmetic for every signed/unsigned kind with integral bounds and factors and for float carriers with any bound; carrier "
+         "independence as a corollary; decide-witnesses that fractional bounds against integer carriers deviate. Tie: every Go numeric kind "
+         "x boundary values x bounds through the exported helpers, AgainstSchema with typed data and ParamValidator, compared with the model "
+         "and with exact arithmetic. Partial: float multipleOf and the tolerance-based integer test are executed (oracle), not proved.",
+         "Lean 4 proof over regenerated definitions (T1 translator) + typed-value differential", "DESIGN.md §6 C13"),
+ "C14": ("Kernel-checked iff-theorems for MinItems/MaxItems (regenerated definitions), Required, RequiredString, RequiredNumber, ReadOnly, "
+         "Pattern, FormatOf, ASCII length counting, soundness of UniqueItems (reflect.DeepEqual implies value equality, by mutual "
+         "induction over typed values) and acceptance of same-typed enum members; decide-witnesses of the two open deviations. Tie: "
+         "each helper on typed Go values (all widths, invalid UTF-8, nested slices/maps, typed and untyped nils), called twice with "
+         "argument snapshots, compared with the model and the textbook definition.",
+         "Lean 4 proof (typed-value model) + helper differential", "DESIGN.md §6 C14"),
+ "C16": ("Lean model of the six-slot chain type/string/format/number/slice/enum with first-error exit and recursive items on typed Go "
+         "values, the chain order as a decide-obligation on the regenerated literals, first-error-exit and nil theorems, decide-witnesses "
+         "of the open deviations; tie: parameter and header validators (plain and recycling) on typed values against the model and the "
+         "simple-schema specification. The full repaired-model equivalence theorem is not yet proved (correspondence only).",
+         "Lean 4 model + regenerated chain-order fact + typed-value differential", "DESIGN.md §6 C16"),
  "C15": ("Kernel-checked invariant over every schedule of every number of threads stepping through compileRegexp/cacheRegexp: every "
          "cached entry belongs to its key, a call returns the expression of the pattern it asked for or reports it invalid exactly when it "
          "is, entries are never lost (lock + load inside it); decide-obligation that the source has the modelled shape (keys, lock, "
